@@ -16,7 +16,7 @@
 #include <dirent.h>
 
 #define MAXT 7
-#define ITER 12
+#define ITER 40
 static uint64_t SOLO[NVARIANTS][NPROG][PLEN];
 static pthread_barrier_t bar;
 typedef struct {
@@ -256,7 +256,7 @@ main(int argc, char **argv)
         stat_add("sanitizer_reports", reports);
         stat_add("sanitizer_reports_on_documented_globals", allowed);
         rec_begin("meta");
-        rec_s("rule_threads", "free-running pass: 2/4/7 threads x (rotating variants, rotating+shifted programs, each variant on all threads), 12 iterations of all "
+        rec_s("rule_threads", "free-running pass: 2/4/7 threads x (rotating variants, rotating+shifted programs, each variant on all threads), 40 iterations of all "
                               "six histories per thread, concurrent alloc/init/key preparation; thread sanitizer reports outside imb_errno / cpuid cache fail");
         rec_end();
         stats_emit();
